@@ -89,7 +89,8 @@ class Tables:
 
 
 def variant_tokens(variant: dict) -> list[str]:
-    return ["V", variant["zeroDefs"], str(int(variant["regCombTopos"])), str(int(variant["selCoversComb"]))]
+    return ["V", variant["zeroDefs"], str(int(variant["regCombTopos"])), str(int(variant["selCoversComb"])),
+            str(int(variant.get("perChainSyms", True)))]
 
 
 def reaction_tokens(reaction, tb: Tables) -> list[str]:
@@ -363,7 +364,7 @@ def synthetic_reaction(rng, max_transitions: int = 14, nfs: int | None = None, m
     nfs = nfs or rng.choice([2, 2, 3, 3, 3, 4])
     canonical = rng.random() < 0.3
     spins = [s for s in [Fraction(0), Fraction(1, 2), Fraction(1), Fraction(3, 2)] if 2 * s <= max_spin2]
-    latex_pool = [None, None, "X^{%d}", "\\chi_{%d}", "", "Y%d"]
+    latex_pool = [None, None, "X^{%d}", "\\chi_{%d}", "", "Y%d", "Z"]  # "Z": several particles may share a latex name
     counter = itertools.count()
 
     def new_particle(prefix, spin=None, massless=False):
